@@ -158,7 +158,8 @@ CHECKS = {
           'every array operation that numpy rejects for incompatible shapes forks the path, so exception freedom is a z3 (LIA) obligation for all sizes; '
           'on every returning path the matrices handed to the solver (KG as operator, K as metric, restricted to the non-null columns of K after the '
           'fall-back), the solver keywords, the back-transform lambda=-1/mu (with the lemma (K+lambda KG)v=0), the scatter of the modes into the rows of '
-          'the non-null columns (zeros elsewhere) and the argument pass-through of Panel.lb to calc_k0/calc_kG0 are checked.'),
+          'the non-null columns (zeros elsewhere) and the argument pass-through of Panel.lb to calc_k0/calc_kG0 are checked.  ConeCyl.lb is executed the same way for '
+          'the four load cases (series block [num0:, num0:], fixed part of the geometric stiffness added to K, both solver attempts, zero rows for the prescribed amplitudes).'),
     design_ref='DESIGN.md section 4 (C05/C06)', note=EIG_NOTE + '; ConeCyl.lb not yet under contract; 5 known findings, 1 fixed defect',
     technique='contracts + symbolic execution with abstract shapes; z3 (LIA) shape obligations; assumed solver contracts'),
  'C06': dict(
